@@ -53,7 +53,7 @@ func damageOnce(t *rapid.T, j *ref.Journal) string {
 	pos := func() int { return rapid.IntRange(0, len(ds)).Draw(t, "insertPos") }
 	acc := func() string { return rapid.SampledFrom(j.Accounts).Draw(t, "dAcc") }
 	com := func() string { return rapid.SampledFrom(j.Commodities).Draw(t, "dCom") }
-	kind := rapid.IntRange(0, 9).Draw(t, "damage")
+	kind := rapid.IntRange(0, 10).Draw(t, "damage")
 	switch kind {
 	case 0: // drop an open
 		if idx := indices(ds, ref.KOpen); len(idx) > 0 {
@@ -113,6 +113,25 @@ func damageOnce(t *rapid.T, j *ref.Journal) string {
 			i := idx[rapid.IntRange(0, len(idx)-1).Draw(t, "which")]
 			j.Directives = append(ds[:i:i], ds[i+1:]...)
 			return "drop-close"
+		}
+	case 10: // close an account whose positions in two commodities cancel numerically (+x A, -x B)
+		var al []string
+		for _, a := range j.Accounts {
+			if ref.IsAL(a) {
+				al = append(al, a)
+			}
+		}
+		if len(al) > 0 && len(j.Commodities) >= 2 {
+			a := rapid.SampledFrom(al).Draw(t, "cancelAcc")
+			other := acc()
+			q := DrawQty(t, 2, false)
+			day := hi + 1
+			j.Directives = append(j.Directives,
+				ref.Directive{Kind: ref.KTrx, Date: day, Desc: "cancelling positions", Bookings: []ref.Booking{
+					{Credit: other, Debit: a, Qty: q, Com: j.Commodities[0]},
+					{Credit: a, Debit: other, Qty: q, Com: j.Commodities[1]}}},
+				ref.Directive{Kind: ref.KClose, Date: day + ref.Day(rapid.IntRange(0, 2).Draw(t, "cancelCloseOff")), Account: a})
+			return "close-cancelling-positions"
 		}
 	case 9: // extra open at an arbitrary date
 		j.Directives = insertAt(ds, pos(), ref.Directive{Kind: ref.KOpen, Date: anyDate(), Account: acc()})
